@@ -267,6 +267,16 @@ def make_input(target, data=b"", mut="literal", seed="", defines=None, cxx=True,
     return d
 
 
+def make_multi_input(tool, files, args, primary, mut, seed="multi", cxx=True, ig=0):
+    """several files on one command line (target multi:<tool>).  `files` = [(name, bytes)], `args` = the names in
+    command-line order; the content of file number `primary` (the broken one) is stored as the input's data, so
+    that minimisation works on it; the other files are stored literally."""
+    d = make_input("multi:" + tool, files[primary][1], mut, seed, cxx=cxx, ig=ig)
+    d["files"] = [[n.decode(), None if i == primary else _b64(c)] for i, (n, c) in enumerate(files)]
+    d["args"] = [a.decode() for a in args]
+    return d
+
+
 INC_MAIN = b"#include \"inc.h\"\nint after_include;\n"
 N_MAIN = mutgen.SNIPPETS["published"] + mutgen.SNIPPETS["templates"] + mutgen.SNIPPETS["structs_unions"]
 
@@ -297,21 +307,25 @@ def command_for(b, inp, d):
         _write(os.path.join(d, "main.N"), data)
     elif kind == "def":
         _write(os.path.join(d, "main.h"), mutgen.DEFINE_MAIN)
+    elif kind == "multi":
+        for n, c in inp["files"]:
+            _write(os.path.join(d, os.path.basename(n)), data if c is None else _unb64(c))
     else:
         raise core.HarnessError("unknown target " + t)
     defs = [CXX_DEF.encode()] if inp.get("cxx", True) else []
     for x in inp.get("D", []):
         defs.append(b"-D" + _unb64(x))
     outs = None
+    srcs = [os.path.basename(a).encode() for a in inp["args"]] if kind == "multi" else [b"main.h"]
     if tool in ("pf", "pfE"):
         argv = [b.parse_file.encode()] + ([b"-E"] if tool == "pfE" else []) + defs + \
-               [b"-S" + b.parser_inc.encode(), b"main.h"]
+               [b"-S" + b.parser_inc.encode()] + srcs
     else:
         outs = {k: os.path.join(d, n) for k, n in (("oc", "out_igate.cxx"), ("od", "out.in"), ("oh", "out.txt"))}
         argv = [b.interrogate.encode(), b"-DCPPPARSER"] + defs + [b"-S" + b.parser_inc.encode(),
                 b"-oc", outs["oc"].encode(), b"-od", outs["od"].encode(), b"-oh", outs["oh"].encode(),
                 b"-module", b"m", b"-library", b"l"] + [o.encode() for o in IG_OPTS[inp.get("ig", 0) % len(IG_OPTS)]] + \
-               [b"main.h"]
+               srcs
     return argv, outs
 
 
@@ -542,7 +556,7 @@ def minimise(b, inp, key, d, budget=160):
             items = core.ddmin(items, lambda sub: same(dict(cur, d=_b64(join(sub)))), max_tests=int(budget * share))
             data = join(items)
             cur["d"] = _b64(data)
-    if cur["t"].startswith("ig"):
+    if cur["t"] == "ig":
         for t2 in ("pf",):
             if same(dict(cur, t=t2)):
                 cur["t"] = t2
@@ -576,7 +590,10 @@ def gen_inputs(sub, n, src_root):
         elif r < 0.84:
             m, data = mutgen.gen_ifops(rng)
             out.append(make_input(rng.choice(("pf", "pf", "pfE", "ig", "inc:pf")), data, m, "ifops", cxx=cxx, ig=ig))
-        elif r < 0.92:
+        elif r < 0.885:
+            lab, files, args, prim = mutgen.gen_multi(rng, corp)
+            out.append(make_multi_input(rng.choice(("ig", "ig", "pf", "pfE")), files, args, prim, lab, cxx=cxx, ig=ig))
+        elif r < 0.93:
             m, data = mutgen.gen_nfile(rng, corp)
             out.append(make_input("nfile", data, m, "nfile", cxx=True, ig=ig))
         else:
@@ -618,6 +635,14 @@ def enum_inputs(tier):
     for i, (lab, data) in enumerate(mutgen.pp_sequence_files()):
         for t in (("pf", "pfE", "ig") if tier == "thorough" else (("pf",) if i % 3 else ("pf", "pfE", "ig"))):
             out.append(make_input(t, data, "enum_ppseq", lab, ig=1))
+    # cycles of 2-4 macros x every use that reaches the string-level or the token-level expander
+    for i, (lab, data) in enumerate(mutgen.macro_cycle_files()):
+        for t in (("pf", "pfE", "ig") if tier == "thorough" else (("pf",) if i % 4 else ("pf", "ig"))):
+            out.append(make_input(t, data, "enum_cycle", lab, ig=1, cxx=bool(i % 2)))
+    # 2-3 files on one command line, the broken one at every position, every guard kind and include pattern
+    for i, (lab, files, args, prim) in enumerate(mutgen.multi_enumeration()):
+        for tool in (("ig", "pf", "pfE") if tier == "thorough" else ("ig", "pf")):
+            out.append(make_multi_input(tool, files, args, prim, "enum_multi", lab, ig=i % len(IG_OPTS)))
     for i, nf in enumerate(mutgen.NFILES):
         out.append(make_input("nfile", nf, "enum_nfile", "nfile%d" % i, ig=i % len(IG_OPTS)))
     for i, ds in enumerate(mutgen.DEFINES):
@@ -893,7 +918,7 @@ def prepare(chk):
 def main(chk):
     chk.rule = ("one evaluation = a batch of inputs run on the real ASan+UBSan binaries; an input is (target, mutator, "
                 "bytes): target in {parse_file, parse_file -E, interrogate -oc/-od/-oh (4 option sets), included file, "
-                ".N file, -D arguments}; distinct = (target, mutator, observed outcome class) triples, outcome class in "
+                ".N file, -D arguments, 2-3 files on one command line}; distinct = (target, mutator, observed outcome class) triples, outcome class in "
                 "{exit0, exit0+warn, error-diag, error-other, crash:<how>, output-rule}; a violation key is "
                 "<how>:<innermost in-project function of the fatal stack | functions/classes of the recursion>")
     chk.assumptions = [
